@@ -47,7 +47,7 @@ thispathname = os.path.dirname(__file__)
 sys.path.append(os.path.join(thispathname))
 
 # Import necessary libraries
-from lib._compat import _str, b, _open_csv
+from lib._compat import _str, b, _open_csv, _csv_writer
 from lib.aux_funcs import is_dir, is_dir_or_file, fullpath, recwalk, path2unix
 import argparse
 import os, datetime, time, sys
@@ -327,7 +327,7 @@ Note2: you can use PyPy to speed the generation, but you should avoid using PyPy
 
             # Preparing CSV writer for the temporary file that will have the lines removed
             with _open_csv(database+'.rem', 'w') as dbfilerem:
-                csv_writer = csv.writer(dbfilerem, lineterminator='\n', delimiter='|', quotechar='"')
+                csv_writer = _csv_writer(dbfilerem, lineterminator='\n', delimiter='|', quotechar='"')
 
                 # Printing CSV headers
                 csv_writer.writerow(csv_headers)
@@ -378,7 +378,7 @@ Note2: you can use PyPy to speed the generation, but you should avoid using PyPy
             ptee.write("====================================")
 
             # Preparing CSV writer
-            csv_writer = csv.writer(dbfile, lineterminator='\n', delimiter='|', quotechar='"')
+            csv_writer = _csv_writer(dbfile, lineterminator='\n', delimiter='|', quotechar='"')
 
             if generate:
                 # Printing CSV headers
@@ -517,7 +517,7 @@ Note2: you can use PyPy to speed the generation, but you should avoid using PyPy
         # Open errors file if supplied (where we will store every errors in a formatted csv so that it can later be easily processed by other softwares, such as repair softwares)
         if errors_file is not None:
             efile = _open_csv(errors_file, 'w')
-            e_writer = csv.writer(efile, delimiter='|', lineterminator='\n', quotechar='"')
+            e_writer = _csv_writer(efile, delimiter='|', lineterminator='\n', quotechar='"')
 
         # Precompute the total number of lines to process (this should be fairly quick)
         filestodocount = 0
